@@ -20,6 +20,7 @@ import (
 	"time"
 
 	"golang.org/x/telemetry/internal/counter"
+	"golang.org/x/telemetry/internal/telemetry"
 	"golang.org/x/telemetry/internal/verifh/vh_layout/fmtgen"
 	. "golang.org/x/telemetry/internal/verifh/vhlib"
 )
@@ -560,6 +561,155 @@ func randomInput() []byte {
 	}
 }
 
+// ---------------------------------------------------------------- Read / ReadFile in a process that holds a mapping
+
+// readObs: counter.Read(c) under the watchdog.
+func readObs(c *counter.Counter) []string {
+	ch := make(chan []string, 1)
+	go func() {
+		defer func() {
+			if r := recover(); r != nil {
+				ch <- []string{"panic", U(0)}
+			}
+		}()
+		v, err := counter.Read(c)
+		switch {
+		case err == nil:
+			ch <- []string{"ok", U(v)}
+		case strings.Contains(err.Error(), "not found"):
+			ch <- []string{"notfound", U(0)}
+		default:
+			ch <- []string{"err", U(0)}
+		}
+	}()
+	select {
+	case r := <-ch:
+		return r
+	case <-time.After(3 * time.Second):
+		hangs++
+		return []string{"hang", U(0)}
+	}
+}
+
+func readFileObs(path string) []string {
+	cs, ss, err := counter.ReadFile(path)
+	if err != nil {
+		return []string{"err"}
+	}
+	f := []string{"ok"}
+	for _, m := range []map[string]uint64{cs, ss} {
+		var ks []string
+		for k := range m {
+			ks = append(ks, k)
+		}
+		sort.Strings(ks)
+		f = append(f, I(int64(len(ks))))
+		for _, k := range ks {
+			f = append(f, HS(k), U(m[k]))
+		}
+	}
+	return f
+}
+
+// caseRead: two file values (what two processes have) on the week's counter
+// file, opened by the real rotate1.  A adds a few counters; its counters are
+// read back with counter.Read (phase 1); B adds counters, usually enough long
+// ones to extend the file beyond what A has mapped; A's counters, counters only
+// B created and a name nobody created are read back THROUGH A again (phase 2);
+// then A adds one more counter itself and everything is read once more (phase
+// 3).  Every phase is one case: the file as it is on disk and what Read
+// answered; plus counter.ReadFile on the path.
+func caseRead() {
+	dir, err := os.MkdirTemp(root, "rd")
+	must(err)
+	defer os.RemoveAll(dir)
+	telemetry.Default = telemetry.NewDir(dir)
+	must(os.MkdirAll(telemetry.Default.LocalDir(), 0777))
+	must(os.WriteFile(filepath.Join(telemetry.Default.LocalDir(), "weekends"), []byte("3\n"), 0666))
+	now := time.Date(2024, 5, 6, 10, 0, 0, 0, time.UTC)
+	counter.CounterTime = func() time.Time { return now }
+	fa, fb := counter.VerifNewFile(), counter.VerifNewFile()
+	fa.Rotate1()
+	fb.Rotate1()
+	path := fa.CurrentName()
+	if path == "" || fb.CurrentName() != path {
+		out.Note("read-rotate-failed")
+		return
+	}
+	defer fa.Close()
+	defer fb.Close()
+	type ctr struct {
+		name string
+		c    *counter.Counter
+	}
+	var known []ctr
+	addVia := func(f *counter.VerifFile, name string, n int64) {
+		c := f.NewCounter(name)
+		c.Add(n)
+	}
+	watch := func(name string) {
+		for _, k := range known {
+			if k.name == name {
+				return
+			}
+		}
+		known = append(known, ctr{name, fa.NewCounter(name)}) // a Counter of process A, never incremented by this handle
+	}
+	emitPhase := func(phase string) {
+		data, err := os.ReadFile(path)
+		must(err)
+		fields := []string{"read", phase, H(data), I(int64(len(known)))}
+		for _, k := range known {
+			fields = append(fields, HS(k.name))
+			fields = append(fields, readObs(k.c)...)
+		}
+		fields = append(fields, readFileObs(path)...)
+		out.Note("read-phase-" + phase)
+		out.Note("read-pages-" + strconv.Itoa(len(data)/16384))
+		out.Case(true, fields...)
+	}
+	// phase 1
+	for i, k := 0, 1+rnd.Intn(5); i < k; i++ {
+		n := fmtgen.Name(rnd)
+		if len(n) > 300 {
+			n = n[:300]
+		}
+		addVia(fa, n, int64(1+rnd.Intn(1000)))
+		watch(n)
+	}
+	watch(fmtgen.NameOfLen(rnd, 1+rnd.Intn(30)) + "-never-created")
+	emitPhase("own")
+	// phase 2: the other process works on the file
+	grow := rnd.Chance(75)
+	for i, k := 0, 1+rnd.Intn(6); i < k; i++ {
+		var n string
+		switch {
+		case grow && i < 5:
+			n = fmtgen.NameOfLen(rnd, 3600+rnd.Intn(497))
+		case rnd.Chance(30) && len(known) > 0:
+			n = known[rnd.Intn(len(known))].name // a counter both processes count
+		default:
+			n = fmtgen.Name(rnd)
+		}
+		if strings.HasSuffix(n, "-never-created") {
+			continue
+		}
+		addVia(fb, n, int64(1+rnd.Intn(1000)))
+		if rnd.Chance(60) {
+			watch(n)
+		}
+	}
+	if grow {
+		out.Note("read-other-process-grew-the-file")
+	}
+	emitPhase("after-other")
+	// phase 3: A allocates again (it remaps if it has to)
+	n := fmtgen.NameOfLen(rnd, Pick(rnd, []int{1, 40, 4000, 4096}))
+	addVia(fa, n, 7)
+	watch(n)
+	emitPhase("after-own-again")
+}
+
 func main() {
 	if len(os.Args) < 3 {
 		fmt.Fprintln(os.Stderr, "usage: vh_parse <cases file> <n>")
@@ -593,8 +743,10 @@ func main() {
 			}
 			out.Note("mut-" + what)
 			emit("mut", m)
-		case k < 88:
+		case k < 85:
 			emit("hand", regression())
+		case k < 88:
+			caseRead()
 		default:
 			emit("rand", randomInput())
 		}
